@@ -21,15 +21,19 @@ use std::collections::BTreeMap;
 use vh::util::*;
 use vh::Args;
 
-/// non-fungible data of the model: field m is mutable, field i is not
+/// non-fungible data of the model: four fields in mixed order, b and d are mutable, a and c are not
 #[derive(ManifestSbor, ScryptoSbor, Clone, Debug)]
 pub struct NfData {
-    pub m: u64,
-    pub i: u64,
+    pub a: u64,
+    pub b: u64,
+    pub c: u64,
+    pub d: u64,
 }
 impl NonFungibleData for NfData {
-    const MUTABLE_FIELDS: &'static [&'static str] = &["m"];
+    const MUTABLE_FIELDS: &'static [&'static str] = &["b", "d"];
 }
+/// data of a freshly minted non-fungible (Data0 of the model): a different value in every field
+pub const DATA0: NfData = NfData { a: 1, b: 2, c: 3, d: 4 };
 
 pub type Ledger = LedgerSimulator<NoExtension, InMemorySubstateDatabase>;
 
@@ -206,7 +210,7 @@ impl Env {
         let mut ruids: BTreeMap<String, Vec<NonFungibleLocalId>> = BTreeMap::new();
         let data_of = |rname: &str, id: i64| -> Option<NfData> {
             let arr = init["data"].get(rname)?.as_array()?;
-            arr.iter().find(|e| e[0].as_i64() == Some(id)).map(|e| NfData { m: e[1].as_u64().unwrap(), i: e[2].as_u64().unwrap() })
+            arr.iter().find(|e| e[0].as_i64() == Some(id)).map(|e| NfData { a: e[1].as_u64().unwrap(), b: e[2].as_u64().unwrap(), c: e[3].as_u64().unwrap(), d: e[4].as_u64().unwrap() })
         };
         for ri in res.values().cloned().collect::<Vec<_>>() {
             if ri.fungible {
@@ -231,7 +235,7 @@ impl Env {
                 let ctr = init["ctr"][&ri.name].as_i64().unwrap();
                 let mut ids: Vec<NonFungibleLocalId> = vec![];
                 if ctr > 0 {
-                    let entries: Vec<NfData> = (1..=ctr).map(|k| data_of(&ri.name, k).unwrap_or(NfData { m: 0, i: 0 })).collect();
+                    let entries: Vec<NfData> = (1..=ctr).map(|k| data_of(&ri.name, k).unwrap_or(DATA0.clone())).collect();
                     let m = ManifestBuilder::new()
                         .lock_fee_from_faucet()
                         .mint_ruid_non_fungible(ri.addr, entries)
@@ -266,7 +270,7 @@ impl Env {
                 ruids.insert(ri.name.clone(), ids);
             } else {
                 for id in ever {
-                    let d = data_of(&ri.name, id).unwrap_or(NfData { m: 0, i: 0 });
+                    let d = data_of(&ri.name, id).unwrap_or(DATA0.clone());
                     let b = ManifestBuilder::new()
                         .lock_fee_from_faucet()
                         .mint_non_fungible(ri.addr, [(NonFungibleLocalId::integer(id as u64), d)]);
@@ -404,7 +408,7 @@ pub fn project_for(env: &Env, w: &World, only: Option<&Value>) -> Value {
                     let locked = matches!(e.lock_status(), LockStatus::Locked);
                     match e.into_value() {
                         Some(d) => {
-                            live.push(json!([x, d.m, d.i]));
+                            live.push(json!([x, d.a, d.b, d.c, d.d])); // EVERY field is read back
                             ev.push(json!(x));
                             if locked {
                                 odd.push(json!(format!("{}#{}: live entry is locked", r.name, x)));
@@ -596,11 +600,11 @@ pub fn build(env: &Env, w: &World, ins: &[Value], upto: usize, cleanup: bool) ->
             "Mint" => b.mint_fungible(r.unwrap().addr, amt(r.unwrap())),
             "MintNF" => {
                 let entries: Vec<(NonFungibleLocalId, NfData)> =
-                    i64s(&i["ids"]).into_iter().map(|x| (NonFungibleLocalId::integer(x as u64), NfData { m: 0, i: 0 })).collect();
+                    i64s(&i["ids"]).into_iter().map(|x| (NonFungibleLocalId::integer(x as u64), DATA0.clone())).collect();
                 b.mint_non_fungible(r.unwrap().addr, entries)
             }
-            "MintNFWrongType" => b.mint_non_fungible(r.unwrap().addr, [(NonFungibleLocalId::string("x").unwrap(), NfData { m: 0, i: 0 })]),
-            "MintRuid" => b.mint_ruid_non_fungible(r.unwrap().addr, (0..n).map(|_| NfData { m: 0, i: 0 }).collect::<Vec<_>>()),
+            "MintNFWrongType" => b.mint_non_fungible(r.unwrap().addr, [(NonFungibleLocalId::string("x").unwrap(), DATA0.clone())]),
+            "MintRuid" => b.mint_ruid_non_fungible(r.unwrap().addr, (0..n).map(|_| DATA0.clone()).collect::<Vec<_>>()),
             "Burn" => {
                 live.retain(|x| *x != bk(&i["k"]).0);
                 b.burn_resource(bk(&i["k"]))
